@@ -460,3 +460,34 @@ Example C17_ex_history :
   event_in effects (mkEv 1 n_Struct n_parse_ [([x73; x65; x6c; x66; x2e; x78], Some (VInt 1))]) = false.
 Proof. vm_compute. repeat split. Qed.
 ''')
+
+
+PROPS['C04'] = dict(
+    title='C04 - a compiled construct behaves exactly like the construct it was compiled from',
+    requires=['ConInd', 'Compiled', 'RTFacts'],
+    prelude='Local Open Scope nat_scope.',
+    theorems=[
+        ('CompiledFacts', 'compiled_parse_agrees', 'For EVERY construct of the fragment cfrag (every emitted leaf with ANY context expressions; every class without an emitter; closed under Struct, Sequence, FocusedSeq, Union(None), IfThenElse, Switch, Renamed, Const, Rebuild, Default, Enum, Mapping, Hex, HexDump, Pointer, Prefixed, FixedSized, Array, RepeatUntil, Padded, Aligned to any depth): on every input on which the interpreter parses, the emitted code returns the same value and the same final stream.'),
+        ('CompiledFacts', 'compiled_build_agrees', 'Likewise for building over the fragment bfrag: whenever the interpreter builds, the emitted code writes the same stream and returns the same value.'),
+        ('CompiledFacts', 'cread_iread', 'io.read(n) of the emitted code returns what the checked stream_read returns whenever that succeeds.'),
+        ('CompiledFacts', 'eval_set_index', 'An expression that does not name _index evaluates identically whether or not the loop maintains _index (the emitted loops do not).'),
+        ('CompiledFacts', 'pred_index_free_no_index', 'Hence every RepeatUntil predicate that does not name _index satisfies the side condition.'),
+        ('CompiledFacts', 'index_free_bytes', 'Side condition instance: Bytes(e) with e not naming _index.'),
+        ('CompiledFacts', 'size_exact_format', 'Side condition instance: the static size of an Int*/Float* is what it consumes.'),
+        ('CompiledFacts', 'bsize_exact_format', 'Side condition instance (build): an Int*/Float* writes exactly its static size.'),
+        ('CompiledFacts', 'ex_compilable_in_fragment', 'A struct with a context-sized field, a counted array with an arithmetic count, Padded, a self-including Prefixed, RepeatUntil and IfThenElse over VarInt is in the fragment with every side condition discharged.'),
+        ('CompiledFacts', 'ex_buildable_in_fragment', 'A struct with Rebuild(len_), context-sized Bytes, Array, Padded, Const and Enum is in the build fragment.'),
+    ],
+    examples='''
+Example C04_ex_parse :
+  let data := [x02; x41; x42; x01; x00; x02; x00; x07; x00; x00; x00; x03; x58; x59; x05; x00; x81; x01] in
+  parse_at ex_compilable [] data 0%N = cparse_at ex_compilable [] data 0%N /\\
+  exists v, parse_at ex_compilable [] data 0%N = Ok (v, 18%Z).
+Proof. split; [vm_compute; reflexivity|eexists; vm_compute; reflexivity]. Qed.
+
+(* the emitted code is NOT the interpreter: on truncated input it reads short where the interpreter raises *)
+Example C04_ex_differs_outside :
+  parse_at (CBytes (XConst (VInt 4))) [] [x01; x02] 0%N = Err EStream (Some []) /\\
+  cparse_at (CBytes (XConst (VInt 4))) [] [x01; x02] 0%N = Ok (VBytes [x01; x02], 2%Z).
+Proof. split; vm_compute; reflexivity. Qed.
+''')
